@@ -121,8 +121,8 @@ bool solver_t::done(solver_state_t& state, const bool iter_ok, const bool conver
 
     if (const auto step_ok = iter_ok && state.valid(); converged || !step_ok)
     {
-        // either converged or failed (NB: an invalid state is never reported as converged)
-        state.status((converged && state.valid()) ? solver_status::converged : solver_status::failed);
+        // either converged or failed (NB: neither an invalid state nor a failed iteration is ever reported as converged)
+        state.status((converged && step_ok) ? solver_status::converged : solver_status::failed);
         logger.info("[solver-", type_id(), "]: ", state, ".\n");
         return true;
     }
